@@ -55,6 +55,12 @@ func c06Catalogue() []Case {
 		{Prof: "c06", Keys: []string{"x"}, Epilogue: true, Deep: true, Note: "writer || RC tx write-then-read || RU observer",
 			Prologue: []COp{{K: "begin", Slot: 1, Lvl: 1}, {K: "begin", Slot: 2, Lvl: 0}},
 			Clients:  [][]COp{{set(0, 2)}, {{K: "set", Slot: 1, Key: 0, Len: 3}, {K: "get", Slot: 1, Key: 0}}, {{K: "get", Slot: 2, Key: 0}}}},
+		// the directory limit is 2 here (light backend only): the prologue fills the only directory, so the
+		// concurrent writes meet the moment it is retired and replaced
+		{Prof: "c06", Keys: []string{"x", "y", "z", "w"}, Epilogue: true, Deep: true, DirMax: 2, Note: "two writers at the moment the only directory is full",
+			Prologue: []COp{set(0, 1), set(1, 1)}, Clients: [][]COp{{set(2, 2)}, {set(3, 2)}}},
+		{Prof: "c06", Keys: []string{"x", "y", "z"}, Epilogue: true, DirMax: 2, Note: "writer || writer || reader at the moment the only directory is full",
+			Prologue: []COp{set(0, 1), set(1, 1)}, Clients: [][]COp{{set(2, 2)}, {set(0, 2)}, {get(1), {K: "keys"}}}},
 		{Prof: "c06", Keys: []string{"x"}, Epilogue: true, Note: "RC tx read-own-write || autocommit writer",
 			Prologue: []COp{{K: "begin", Slot: 1, Lvl: 1}},
 			Clients:  [][]COp{{{K: "set", Slot: 1, Key: 0, Len: 2}, {K: "get", Slot: 1, Key: 0}, {K: "commit", Slot: 1}}, {set(0, 5), get(0)}}},
